@@ -18,6 +18,8 @@
  *                                client receives nothing
  *                            pN  the daemon's whole reply is collected, the client gets only N bytes
  *                                (clamped below the reply length)
+ *                            rHEX  the daemon's reply is discarded; the client receives the given bytes instead
+ *                                (a hostile or broken peer; used by C14 for the client side of the codec)
  *                            ok  bridged fully
  * Replaced environment on the client side: nanosleep (the back-off is recorded, not slept) and a counter
  * on connect ().  No munge source is changed.
@@ -76,8 +78,8 @@ static void parse_crefuse (char **a, int na) {
 }
 
 /* ---- schedule and trace -------------------------------------------------------------------- */
-enum { FT_OK, FT_Q, FT_QD, FT_F, FT_P };
-struct fault { int kind; long n; };
+enum { FT_OK, FT_Q, FT_QD, FT_F, FT_P, FT_R };
+struct fault { int kind; long n; unsigned char *bytes; };
 static struct fault g_sched[64]; static int g_nsched = 0;
 static volatile int g_attempt = 0;
 static volatile int g_barrier = 0;
@@ -87,11 +89,16 @@ static int g_lfd = -1;
 
 static int parse_sched (const char *s) {
     char *dup = strdup (s), *tok, *save = NULL; int ok = 1;
+    { int i; for (i = 0; i < g_nsched; i++) { free (g_sched[i].bytes); g_sched[i].bytes = NULL; } }
     g_nsched = 0;
     if (!strcmp (s, "-")) { free (dup); return 1; }
     for (tok = strtok_r (dup, ",", &save); tok; tok = strtok_r (NULL, ",", &save)) {
-        struct fault f; f.n = 0;
+        struct fault f; f.n = 0; f.bytes = NULL;
         if (!strcmp (tok, "f")) f.kind = FT_F;
+        else if (tok[0] == 'r' && (isxdigit ((unsigned char) tok[1]) || tok[1] == '-')) {    /* rHEX: the client receives these bytes instead of the daemon's reply */
+            f.kind = FT_R; f.n = hx_parse (tok + 1, &f.bytes);
+            if (f.n < 0) { ok = 0; break; }
+        }
         else if (!strcmp (tok, "ok")) f.kind = FT_OK;
         else if (tok[0] == 'q' && isdigit ((unsigned char) tok[1])) { f.kind = FT_Q; f.n = atol (tok + 1); }
         else if (tok[0] == 'Q' && isdigit ((unsigned char) tok[1])) { f.kind = FT_QD; f.n = atol (tok + 1); }
@@ -140,7 +147,7 @@ static void handle_attempt (int cfd) {
     unsigned char hdr[11], *req = NULL, *rsp = NULL; long have = 0, total = -1, fwd, rlen = 0, rcap = 0, give;
     if (g_barrier) { close (cfd); return; }
     k = g_attempt++;
-    ft.kind = FT_OK; ft.n = 0;
+    ft.kind = FT_OK; ft.n = 0; ft.bytes = NULL;
     if (k < g_nsched) ft = g_sched[k];
     if (socketpair (AF_UNIX, SOCK_STREAM, 0, sv) < 0) abort ();
     if (ft.kind == FT_F) shutdown (sv[1], SHUT_RD);        /* the daemon's send will fail */
@@ -191,6 +198,7 @@ static void handle_attempt (int cfd) {
     if (ft.kind == FT_OK) give = rlen;
     else if (ft.kind == FT_P) { give = ft.n < rlen ? ft.n : rlen - 1; if (give < 0) give = 0; }
     if (give > 0) write_all (cfd, rsp, give);
+    if (ft.kind == FT_R && ft.n > 0) write_all (cfd, ft.bytes, ft.n);
     close (cfd);
     free (req); free (rsp);
 }
